@@ -76,6 +76,18 @@ theorem younger_copy_pruned_counterexample :
       some (true, true, false) ∧ 10000 < 8200 + 3600 := by
   decide
 
+/-- A second way in which "older than the grace period" fails for the object as a whole: object 9 sits in an old pack
+`{9}`; it is re-added (fresh loose copy, 10 s old); `pack_loose_objects` finds that the pack it would write already exists
+and only deletes the loose copy (`installPack` keeps the old pack with its old mtime); `gc(grace 3600)` then removes
+object 9, ten seconds after it was written. -/
+theorem fresh_copy_dropped_counterexample :
+    let s : GC.Store := { loose := [(9, 9990)], packs := [{ ids := [1, 2], mtime := 100 }, { ids := [9], mtime := 100 }],
+                          alts := [] }
+    let G : GC.Id → List GC.Id := fun x => if x = 1 then [2] else []
+    (GC.applyAll G [1] 10 [.packLoose 10000, .gc true (some 3600) 10000] s).map (fun s' => (s'.has 1, s'.has 2, s'.has 9)) =
+      some (true, true, false) ∧ 10000 < 9990 + 3600 := by
+  decide
+
 /-- non-vacuity of the hypotheses of the logical theorems: a store with loose, packed, duplicated and alternate objects;
 gc with the default grace period (from the source) keeps the closure of the root and the young unreachable object, and
 removes the old unreachable one. -/
@@ -88,8 +100,6 @@ example :
         (fun s' => ([1, 2, 3, 4, 5, 6, 7, 8].map s'.has, s'.loose, s'.packs.map (·.ids))) =
       some ([true, true, true, true, false, false, false, true], [], [[8, 1, 2, 3]]) := by
   decide
-
-/-! ## Concurrent half -/
 
 /-! ## Concurrent half: concrete witnesses (the general theorems follow below) -/
 
